@@ -49,6 +49,10 @@ type Case struct {
 	Query string             `json:"query"`
 	Reps  json.RawMessage    `json:"reps"`
 	Plan  map[string]Outcome `json:"plan"`
+	// PresentDelay: microseconds the server's ErrorPresenter takes (a presenter doing synchronous work - logging, an
+	// error tracker); it runs inside ec.Error, on the goroutine that resolved the failing representation, so it
+	// stretches the time between "resolver returned" and "outcome recorded" - a schedule, not a behaviour
+	PresentDelay int `json:"presentDelay,omitempty"`
 }
 
 type ErrOut struct {
@@ -173,7 +177,7 @@ func errVal(err error) reflect.Value {
 	return reflect.ValueOf(&err).Elem()
 }
 
-// newEntity builds a value of the resolver's return element type (T or *T) with Tag set and every
+// newEntity builds a value of the resolver's return element type (T or *T) with Tag (or the carrier field) set and every
 // pointer-to-struct field allocated (so that nested @requires assignments have a target).
 func newEntity(t reflect.Type, tag string) reflect.Value {
 	st := t
@@ -190,6 +194,21 @@ func newEntity(t reflect.Type, tag string) reflect.Value {
 	}
 	if f := sv.FieldByName("Tag"); f.IsValid() && f.Kind() == reflect.String {
 		f.SetString(tag)
+	} else {
+		// a type without `tag` (key-only entities): the call goes into its first ID/String field (config.go: Carrier)
+		for i := 0; i < sv.NumField(); i++ {
+			f := sv.Field(i)
+			if f.Kind() == reflect.String {
+				f.SetString(tag)
+				break
+			}
+			if f.Kind() == reflect.Ptr && f.Type().Elem().Kind() == reflect.String {
+				p := reflect.New(f.Type().Elem())
+				p.Elem().SetString(tag)
+				f.Set(p)
+				break
+			}
+		}
 	}
 	if t.Kind() == reflect.Ptr {
 		return pv
@@ -466,6 +485,12 @@ func RunCase(es graphql.ExecutableSchema, c Case) Result {
 	res := Result{ID: c.ID, Errors: []ErrOut{}, Calls: []string{}}
 	ex := executor.New(es)
 	ex.SetRecoverFunc(func(ctx context.Context, err any) error { return errors.New(panicText(err)) })
+	if c.PresentDelay > 0 {
+		ex.SetErrorPresenter(func(ctx context.Context, err error) *gqlerror.Error {
+			sleepUs(c.PresentDelay)
+			return graphql.DefaultErrorPresenter(ctx, err)
+		})
+	}
 	var vars map[string]any
 	dec := json.NewDecoder(strings.NewReader(`{"r":` + string(c.Reps) + `}`))
 	dec.UseNumber()
@@ -496,7 +521,7 @@ func RunCase(es graphql.ExecutableSchema, c Case) Result {
 	}()
 	select {
 	case <-done:
-	case <-time.After(20 * time.Second):
+	case <-time.After(5 * time.Second):
 		res.Hung = true
 		return res
 	}
@@ -520,6 +545,7 @@ func Main(stub any, es graphql.ExecutableSchema) {
 	enc.SetEscapeHTML(false)
 	sc := bufio.NewScanner(os.Stdin)
 	sc.Buffer(make([]byte, 1<<20), 1<<26)
+	hung := 0
 	for sc.Scan() {
 		line := strings.TrimSpace(sc.Text())
 		if line == "" {
@@ -530,6 +556,15 @@ func Main(stub any, es graphql.ExecutableSchema) {
 			enc.Encode(Result{Crash: "bad case line: " + err.Error()})
 			continue
 		}
-		enc.Encode(RunCase(es, c))
+		r := RunCase(es, c)
+		enc.Encode(r)
+		if r.Hung {
+			// an `_entities` that never answers: a few witnesses are enough, the check reports them
+			hung++
+			if hung >= 3 {
+				out.Flush()
+				return
+			}
+		}
 	}
 }
